@@ -10,7 +10,7 @@ from vf.runner import Sub
 ID = "C18"
 RULE = ("Cases are constraint expression trees. Exhaustive part: every tree over NOT + the 7 binary logical "
         "operators of depth <= 2 on names {A,B,C} and again on the case twins {A,a,B} (2 x 33 399 trees; quick runs all depth<=1 trees and a seeded "
-        "slice of depth-2 trees). Random part: trees to depth 5 on <= 5 names, the seven documented simple forms "
+        "slice of depth-2 trees); every NOT/AND/OR tree of depth <= 3 on {A,B} (182 712 trees; quick: a seeded 1/24 slice). Random part: trees to depth 5 on <= 5 names, the seven documented simple forms "
         "for all ordered name pairs (also with odd names), and arithmetic/aggregate trees for the kind predicates. "
         "Non-trivial: tree with an XOR/EQUIVALENCE root, a NOT over a binary operator, or any arithmetic/aggregate "
         "tree; distinct = distinct canonical JSON.")
@@ -42,6 +42,27 @@ def _trees(depth, names):
             seen.add(k)
             out.append(e)
     return out
+
+
+def _trees_over(depth, names, binops):
+    """All trees of depth <= depth over NOT + binops (no de-duplication needed: construction is injective)."""
+    level = [["T", n] for n in names]
+    for _ in range(depth):
+        nxt = [["T", n] for n in names] + [["NOT", e] for e in level]
+        for op in binops:
+            nxt.extend([op, a, b] for a in level for b in level)
+        level = nxt
+    return level
+
+
+def enum_andornot(tier, seed):
+    """Every NOT/AND/OR tree of depth <= 3 over {A,B} (182 712 trees): the negation-propagation / CNF part of
+    split_constraint and the pseudo-/strict-complex decision, where depth 2 is too shallow (OR over OR over AND,
+    NOT over OR over AND ...).  Quick: a seeded 1/24 slice."""
+    trees = _trees_over(3, ["A", "B"], ["AND", "OR"])
+    if tier != "thorough":
+        trees = trees[int(seed) % 24::24]
+    return [{"ast": e} for e in trees]
 
 
 _CACHE = {}
@@ -271,12 +292,14 @@ def classes(case):
 SUBS = [
     Sub("exhaustive-depth2", check, enum=enum_exhaustive, nontrivial=nontrivial, classes=classes,
         exhaustive={"quick": False, "thorough": True}),
+    Sub("exhaustive-and-or-not-depth3", check, enum=enum_andornot, nontrivial=nontrivial, classes=classes,
+        exhaustive={"quick": False, "thorough": True}),
     Sub("random", check, gen=lambda tier: random_cases(), nontrivial=nontrivial, classes=classes,
         n={"quick": 1000, "thorough": 8000}, essential=["documented-form", "non-logical"]),
 ]
 
 MANIFEST = {
-    "technique": "exhaustive enumeration of all constraint trees of depth<=2 over 3 names + Hypothesis random deeper/arithmetic trees; oracle = complete truth tables and a reference kind classifier",
-    "level_text": "Every logical tree of depth <= 2 over {A,B,C} is decided exhaustively (thorough; quick takes all depth<=1 trees and a seeded 1/8 slice of depth 2), deeper and arithmetic/aggregate trees by random search. Equivalences are exact (truth tables). Absence of violations is established only inside the enumerated domain.",
+    "technique": "exhaustive enumeration of all constraint trees of depth<=2 over 3 names and of all NOT/AND/OR trees of depth<=3 over 2 names + Hypothesis random deeper/arithmetic trees; oracle = complete truth tables and a reference kind classifier",
+    "level_text": "Every logical tree of depth <= 2 over {A,B,C} is decided exhaustively (thorough; quick takes all depth<=1 trees and a seeded 1/8 slice of depth 2), every NOT/AND/OR tree of depth <= 3 over {A,B} likewise (thorough; quick a 1/24 slice), deeper and arithmetic/aggregate trees by random search. Equivalences are exact (truth tables). Absence of violations is established only inside the enumerated domain.",
     "level_note": "Trusted: vf/logic.py truth-table semantics (REQUIRES=IMPLIES, EXCLUDES=not both), the reference kind classifier, Hypothesis. Names inside aggregate calls are not demanded from get_features.",
 }
